@@ -480,6 +480,7 @@ func contextClose(t *tape.Tape, cfg sim.Config) (res sim.Result) {
 	regName, stuckInHost := "", false
 	cause := t.Choose(3)
 	panicAfter := t.Chance(1, 3)
+	overflowAfter := !panicAfter && t.Chance(1, 4)
 	_, err := rt.NewHostModuleBuilder("env").NewFunctionBuilder().WithFunc(func() {
 		calls++
 		if calls == k {
@@ -539,6 +540,9 @@ func contextClose(t *tape.Tape, cfg sim.Config) (res sim.Result) {
 	m.Imports = append(m.Imports, wasmb.Import{Module: "own", Name: "mem", Kind: wasmb.KindMemory, Mem: wasmb.Limits{Min: 1, Max: 2, HasMax: true}})
 	m.AddFunc(nil, nil, nil, (&wasmb.Code{}).Loop(wasmb.BlockVoid).Call(tick).Br(0).End().B, "spin")
 	m.AddFunc(nil, []wasmb.ValType{wasmb.I32}, nil, (&wasmb.Code{}).I32Const(5).B, "five")
+	// dive: tick(); dive() -- recursion without a loop: after the module was closed under it the call goes on
+	// until the stack is exhausted and ends with THAT error
+	m.AddFunc(nil, nil, nil, (&wasmb.Code{}).Call(tick).Call(3).B, "dive")
 	cm, err := rt.CompileModule(ctx, m.Encode())
 	if err != nil {
 		panic(err)
@@ -585,7 +589,12 @@ func contextClose(t *tape.Tape, cfg sim.Config) (res sim.Result) {
 	var cctx context.Context
 	cctx, cancel = context.WithCancel(ctx)
 	defer cancel()
-	_, callErr := mod.ExportedFunction("spin").Call(cctx)
+	entry := "spin"
+	if overflowAfter {
+		entry = "dive"
+		res.Stat("probe.cancelled_call_ends_by_exhausting_the_stack", 1)
+	}
+	_, callErr := mod.ExportedFunction(entry).Call(cctx)
 	// (which of two racing closers wins decides the exit code: not logged, the trace must be deterministic)
 	res.Logf("cause=%d k=%d name=%q: spin returned an error=%v", cause, k, name, callErr != nil)
 	if callErr == nil {
